@@ -4,6 +4,8 @@
 // which is symmetry-consistent by construction.
 #include "hcommon.hpp"
 #include <gemmi/mtz.hpp>
+#include <gemmi/reciproc.hpp>
+#include <set>
 #include <gemmi/asudata.hpp>
 #include <gemmi/symmetry.hpp>
 #include <gemmi/unitcell.hpp>
@@ -199,6 +201,54 @@ static std::string handle(const std::string& cmd, const std::string& args) {
     s += " D " + std::to_string(ad.v[0].hkl[0]) + " " + std::to_string(ad.v[0].hkl[1]) + " " +
          std::to_string(ad.v[0].hkl[2]) + " " + decode(std::arg(ad.v[0].value) * 180 / PI);
     return s;
+  }
+  if (cmd == "o_miller") {
+    // make_miller_vector / count_reflections: args row dmin_x100 dmax_x100
+    const SpaceGroup& sg = spacegroup_tables::main[to_ll(w.at(0))];
+    double dmin = to_ll(w.at(1)) / 100.0 + 1e-7, dmax = to_ll(w.at(2)) / 100.0;
+    UnitCell cell = cell_for(sg);
+    cell.set_cell_images_from_spacegroup(&sg);
+    GroupOps gops = sg.operations();
+    ReciprocalAsu asu(&sg);
+    std::vector<Miller> uniq = make_miller_vector(cell, &sg, dmin, dmax, true);
+    std::vector<Miller> full = make_miller_vector(cell, &sg, dmin, dmax, false);
+    if ((int) uniq.size() != count_reflections(cell, &sg, dmin, dmax, true)) return "bad count unique";
+    if ((int) full.size() != count_reflections(cell, &sg, dmin, dmax, false)) return "bad count all";
+    auto in_range = [&](const Miller& h) {
+      double v = cell.calculate_1_d2(h);
+      return v <= 1 / (dmin * dmin) && v > (dmax > 0 ? 1 / (dmax * dmax) : 0.);   // (0,0,0) is not a reflection
+    };
+    std::set<Miller> us(uniq.begin(), uniq.end()), fs(full.begin(), full.end());
+    if (us.size() != uniq.size() || fs.size() != full.size()) return "bad duplicate reflection";
+    for (const Miller& h : uniq)
+      if (!asu.is_in(h) || gops.is_systematically_absent(h) || !in_range(h)) return "bad unique list holds " + hs(h);
+    // brute force over a cube that certainly contains the resolution sphere
+    int L = (int) std::ceil(std::max(cell.a, std::max(cell.b, cell.c)) / dmin) + 2;
+    size_t n_all = 0;
+    for (int h = -L; h <= L; ++h) for (int k = -L; k <= L; ++k) for (int l = -L; l <= L; ++l) {
+      Miller m = {{h, k, l}};
+      if (!in_range(m) || gops.is_systematically_absent(m)) continue;
+      // margin: skip indices whose 1/d^2 is within rounding of the limits
+      double v = cell.calculate_1_d2(m), a1 = 1 / (dmin * dmin), a2 = dmax > 0 ? 1 / (dmax * dmax) : -1;
+      if (std::fabs(v - a1) < 1e-9 * a1 || std::fabs(v - a2) < 1e-9) continue;
+      ++n_all;
+      if (!fs.count(m)) return "bad missing from the full list: " + hs(m);
+      if (asu.is_in(m) != (us.count(m) != 0)) return "bad unique list disagrees with the ASU for " + hs(m);
+      // its ASU equivalent is listed, and is the only listed member of the orbit
+      Miller a = asu.to_asu(m, gops).first;
+      if (!us.count(a)) return "bad ASU equivalent not listed: " + hs(m) + " -> " + hs(a);
+      int listed = 0;
+      std::set<Miller> orbit;
+      for (const Op& op : gops.sym_ops) {
+        Miller p = op.apply_to_hkl(m);
+        orbit.insert(p);
+        orbit.insert(Miller{{-p[0], -p[1], -p[2]}});
+      }
+      for (const Miller& p : orbit) listed += (int) us.count(p);
+      if (listed != 1) return "bad orbit of " + hs(m) + " has " + std::to_string(listed) + " members in the unique list";
+    }
+    if (n_all + 4 < full.size()) return "bad full list holds reflections outside the sphere";
+    return uniq.empty() ? "skip" : "ok";
   }
   if (cmd == "expand") {
     // model correspondence: one reflection (PHI = 5 deg) through Mtz::expand_to_p1
